@@ -183,7 +183,12 @@ func runC04(c *harness.Ctx) {
 	if v, err := strconv.Atoi(os.Getenv("VERIF_C04_FLOOD_1IN")); err == nil {
 		floodIn = v
 	}
-	if !wovenBuild && (c.Run == 0 || floodIn > 0 && t.Draw("junk-flood", floodIn) == floodIn-1) {
+	// Run 2 (the second worker on the unwoven build) holds the sister history:
+	// 102 000 *genuine* handshakes (60 000 in the quick tier) - fewer than the filter has
+	// room for - and
+	// then a replay of the first.
+	genuineFlood := !wovenBuild && c.Run == 2
+	if !wovenBuild && (c.Run == 0 || genuineFlood || floodIn > 0 && t.Draw("junk-flood", floodIn) == floodIn-1) {
 		sim.RunWallExtra.Store(900)
 		// A long history: one genuine handshake is accepted, then more
 		// connections than the filter has room for present its X and mark with
@@ -191,7 +196,11 @@ func runC04(c *harness.Ctx) {
 		// wire can do that) and hang up, then the genuine handshake is replayed.
 		// Only one handshake is being remembered, so the replay must be refused.
 		c.S.MaxSteps = 80000000
-		c.Feature("junk-flood-then-replay")
+		if genuineFlood {
+			c.Feature("genuine-flood-then-replay")
+		} else {
+			c.Feature("junk-flood-then-replay")
+		}
 		a := newBlob(int64(t.Draw("flood.hoff", 2)))
 		sub := submit(a)
 		c.S.Run(func() bool { return sub.done }, settle)
@@ -200,9 +209,19 @@ func runC04(c *harness.Ctx) {
 			return
 		}
 		a.accepted++
-		const floodN = 102400 + 64
+		floodN := 102400 + 64
+		if genuineFlood {
+			floodN = 102000
+			if c.Tier != "thorough" {
+				floodN = 60000 // the quick tier settles for well over half the filter
+			}
+		}
 		const batch = 64
 		body := a.bytes[:len(a.bytes)-16]
+		// genuine handshakes in bulk: one ephemeral key, a different padding each
+		// time (the MAC covers the padding, so every one is a distinct handshake)
+		gEph := obfs4ref.NewKeypair(refEntropy{c, "ref.eph.flood"})
+		gHour := nowHour()
 		done := 0
 		var batchLinks []*simnet.Link
 		for base := 0; base < floodN && !c.S.Violated(); base += batch {
@@ -211,6 +230,29 @@ func runC04(c *harness.Ctx) {
 				l := c.Net.NewLink(fmt.Sprintf("j%d", i), fmt.Sprintf("sj%d", i))
 				batchLinks = append(batchLinks, l)
 				l.AB.Policy = simnet.ChunkAll
+				if genuineFlood {
+					c.S.Go(fmt.Sprintf("sj%d/accept", i), func() {
+						conn, err := sf.WrapConn(l.B)
+						if err == nil {
+							conn.Close()
+						} else if len(l.B.Writes) == 0 {
+							c.Violate("C04/fresh-rejected", "flood: genuine handshake %d of %d was refused: %v", i, floodN, err)
+						}
+						l.B.Close()
+						done++
+					})
+					c.S.Go(fmt.Sprintf("j%d/genuine", i), func() {
+						pad := make([]byte, obfs4ref.ClientMinPad+i%300)
+						for k := range pad {
+							pad[k] = byte(uint64(i) >> (8 * uint(k%8)))
+						}
+						l.A.Write(obfs4ref.ClientRequest(rid, gEph, pad, gHour))
+						buf := make([]byte, 64)
+						l.A.Read(buf) // the beginning of the answer (or the end of the connection)
+						l.A.Close()
+					})
+					continue
+				}
 				c.S.Go(fmt.Sprintf("sj%d/accept", i), func() {
 					conn, err := sf.WrapConn(l.B)
 					if err == nil {
@@ -249,11 +291,17 @@ func runC04(c *harness.Ctx) {
 		if c.S.Violated() {
 			return
 		}
-		c.S.Count("fault.junk-connections", int64(floodN))
+		kind := "connections that presented junk MACs"
+		if genuineFlood {
+			kind = "further genuine handshakes (fewer than the filter remembers)"
+			c.S.Count("fault.genuine-handshakes-in-bulk", int64(floodN))
+		} else {
+			c.S.Count("fault.junk-connections", int64(floodN))
+		}
 		sub = submit(a)
 		c.S.Run(func() bool { return sub.done }, settle)
-		check(sub, nowHour(), false, fmt.Sprintf("flood: replay of the genuine handshake after %d connections that presented junk MACs", floodN))
-		c.Info["history"] = []string{"genuine accepted", fmt.Sprintf("%d junk", floodN), "replay"}
+		check(sub, nowHour(), false, fmt.Sprintf("flood: replay of the first handshake after %d %s", floodN, kind))
+		c.Info["history"] = []string{"genuine accepted", fmt.Sprintf("%d %s", floodN, kind), "replay"}
 		c.Reached, c.Nontrivial = true, true
 		return
 	}
